@@ -1,9 +1,45 @@
+import os, sys
+
+
+def _burst_hook(prop, outdir, name, corr_broken, io_fails, log):
+    """Once per check run: the subscription-burst rounds (many partitions of one broker subscribed at the same moment),
+    in a process of their own built with -race. A reported data race in package sarama, a crash, or a partition that
+    never delivers is an IO failure of the property. Without a -race toolchain the plain binary runs the same rounds."""
+    if not name.startswith("gen:") or getattr(_burst_hook, "done", False):
+        return
+    _burst_hook.done = True
+    V = sys.modules["__main__"]
+    mode = "race"
+    try:
+        rc, out, binp = V.build_harness(prop, CFG, log, race=True)
+    except Exception as e:
+        rc, out, binp = 1, str(e), None
+    if rc != 0:
+        log("race build not possible (rc=%d): %s" % (rc, out[-300:].replace("\n", " | ")))
+        mode = "norace"
+        binp = os.path.join(V.BUILD, "svh-" + prop.lower())
+    od = os.path.join(os.path.dirname(outdir), "burst")
+    thorough = "thorough" in sys.argv
+    rc, out, dt = V.run_harness(binp, od, 7, "thorough" if thorough else "quick", extra=["-burstonly"], timeout=900)
+    log("burst run (%s) rc=%d %.1fs" % (mode, rc, dt))
+    inp = "note burst (%s build, -burstonly, seed 7)" % mode
+    if "DATA RACE" in out:
+        i = out.index("DATA RACE")
+        io_fails.append({"sig": "data-race-in-consumer", "input": inp, "detail": out[max(0, i - 20):i + 2500], "stream": "burst"})
+    elif rc != 0:
+        i = out.find("fatal error")
+        io_fails.append({"sig": "burst-run-crashed", "input": inp,
+                         "detail": out[i:i + 1200] if i >= 0 else out[-1200:], "stream": "burst"})
+    io_fails += [dict(x, stream="burst") for x in V.read_io(od)]
+
+
 CFG = dict(
     lean_modules=["SaramaVerif.Model.ConsumerParse", "SaramaVerif.Model.ConsumerParseSpec",
                   "SaramaVerif.Lemmas.C03Core", "SaramaVerif.Lemmas.C03Resp", "SaramaVerif.Lemmas.C03Hist",
                   "SaramaVerif.Props.C03", "SaramaVerif.Bridge.C03"],
     lean_support=["SaramaVerif.GoSem", "SaramaVerif.Model.ConsumerParseWire", "SaramaVerif.Gen.C03"],
     model="C03",
+    custom=_burst_hook,
     overlay=["sim", "c03"],
     required_theorems=["Props.C03.consume_prefix", "Props.C03.delivered_is_stored", "Props.C03.step_window",
                        "Props.C03.run_window", "Props.C03.consume_progress", "Props.C03.unproductive_keeps_offset",
@@ -39,7 +75,8 @@ CFG["manifest"] = dict(
          "codecs x Kafka 0.8.2-2.8, real FetchResponse encode -> real decode -> real parseResponse vs the compiled model, plus property oracles on the real output and an end-to-end "
          "stream (real Consumer against MockBroker with faults and a slow reader) and consumer scenarios against the simulated cluster (harness/cons: several partitions per broker, slow readers that "
          "get unsubscribed, connection drops / silent brokers / error codes on fetches, leader moves, appends while consuming; oracle: per partition the deliveries are the log from the start offset, "
-         "in order, once, unaltered, and delivery does not stall while the partition is reachable).",
+         "in order, once, unaltered, and delivery does not stall while the partition is reachable); subscription bursts (48 partitions of one broker subscribed at the same moment, every accepted "
+         "subscription must deliver) run in a process built with -race, where a data race in the consumer is reported as a failure.",
     note="Trusted: Lean kernel; translator tools/extract + GoSem.lean; harness/line protocol; the abstract view of the decoder (what FetchResponseBlock.decode keeps) is tied by "
          "correspondence only. Modelled not verified: broker behaviour (FaithfulData hypothesis), int64 non-overflow. Not modelled: goroutine pipeline, real time "
          "(MaxProcessingTime ticker), several partitions per broker - observed end-to-end only. Known finding: inner messages of a log-append v1 wrapper get the producer's timestamp.",
